@@ -45,7 +45,7 @@
 //                 free happened;
 //   PerBackend  : the bump region was exhausted (free-list path), a larger free
 //                 offset was split, or a deallocation moved nextLoc back;
-//   PTS objects : an offset freed in this history was handed out again;
+//   PTS objects : an object was created after a deletion in this history;
 //   LargeArray  : two arrays were live at once, or an array was re-allocated
 //                 after deallocate.
 //
@@ -1248,6 +1248,7 @@ static sx::BfsCase pts_objects_case(int qd, int td) {
     // offsets given back during this history and not handed out again since,
     // per (size, backend): part of the key
     std::map<std::pair<size_t, bool>, int> freed;
+    bool deleted = false, after_delete = false;
     struct Guard { // objects die before the shadow, newest first
       std::vector<std::unique_ptr<PtsObj>>& o;
       ~Guard() {
@@ -1296,6 +1297,8 @@ static sx::BfsCase pts_objects_case(int qd, int td) {
         int& f = freed[{x->sz, x->per_socket}];
         if (f > 0)
           --f;
+        if (deleted)
+          after_delete = true;
         objs.push_back(std::move(x));
       } else if (!objs.empty()) {
         size_t i = op.kind == 1 ? objs.size() - 1 : 0;
@@ -1304,6 +1307,7 @@ static sx::BfsCase pts_objects_case(int qd, int td) {
         if (objs[i]->sz == 200000)
           big--;
         freed[{objs[i]->sz, objs[i]->per_socket}]++;
+        deleted = true;
         objs.erase(objs.begin() + i);
       }
       sh.verify_all(comp, false, ("after " + op.nm).c_str());
@@ -1317,12 +1321,17 @@ static sx::BfsCase pts_objects_case(int qd, int td) {
       if (kv.second)
         k << (kv.first.second ? "S" : "T") << kv.first.first << "="
           << kv.second << ",";
-    // history flag kept in the key so that "offset came back" states are
-    // told apart from first-use states (costs at most a factor 2)
-    k << (sh.reuse_seen ? " reused" : "");
-    if (sh.reuse_seen)
+    // History flag kept in the key so that states reached by creating an
+    // object AFTER a deletion (the backend serves it from a moved-back nextLoc
+    // or, once the bump region of this long-lived worker is used up, from its
+    // free lists) are told apart from first-use states.  Derived from the
+    // history, not from observed addresses: the global backend's bump/free
+    // list state depends on what the worker ran before, the key must not.
+    k << (after_delete ? " after-delete" : "");
+    if (after_delete)
       sx::mark_nontrivial();
-    sx::outcome(sh.outcome_sig() ^ (sh.reuse_seen ? 0x100 : 0));
+    sx::outcome(sh.outcome_sig() ^ (after_delete ? 0x100 : 0) ^
+                (sh.reuse_seen ? 0x200 : 0));
     // the shadow's blocks die with the objects (Guard); forget them first
     sh.live.clear();
     return k.str();
@@ -1588,6 +1597,13 @@ int main(int argc, char** argv) {
   auto fixedF = [] { return std::unique_ptr<SizedApi>(new SizedFreshApi()); };
   auto pow2   = [] { return std::unique_ptr<SizedApi>(new Pow2Api()); };
 
+  // Order: cheap cases first.  seqx hands every case a share of the remaining
+  // deadline and can only stop a case between BFS levels, so on a loaded
+  // machine the expensive cases at the end are the ones that get truncated
+  // (reported as exhaustive=0 with the completed depth), not the many small
+  // ones.
+  const size_t M   = 1u << 20;
+  const size_t FIT = PAGE / sizeof(Elem); // 87381 elements = 2 MiB - 8
   // --- FixedSizeHeap through the global factory
   bfs.push_back(sized_case("FixedSizeHeap sizes {1,9}, 2 threads",
                            "FixedSizeHeap", {1, 9}, 2, B_HEAP_OR_PAGE, fixedG,
@@ -1604,7 +1620,15 @@ int main(int argc, char** argv) {
   bfs.push_back(sized_case(
       "SizedHeap (fresh object) element 699048 (3 per page), 2 threads",
       "SizedHeap", {699048}, 2, B_PAGE, fixedF, 5, 10));
-  // --- Pow_2_BlockHeap, every class boundary
+  // --- page pool
+  bfs.push_back(pagepool_case(2, 4, 6));
+  // --- per-thread / per-socket storage objects on the global backends
+  bfs.push_back(pts_objects_case(4, 7));
+  // --- large arrays: small + one page plus one element; one page minus 8
+  //     bytes + three pages
+  bfs.push_back(largearray_case(1000, FIT + 1, 4, 8));
+  bfs.push_back(largearray_case(FIT, 3 * FIT, 4, 8));
+  // --- Pow_2_BlockHeap, every class boundary (2^16 + 1 is the malloc path)
   for (unsigned k = 3; k <= 16; ++k) {
     std::vector<size_t> sz;
     if (k == 3)
@@ -1617,13 +1641,11 @@ int main(int argc, char** argv) {
                              "Pow_2_BlockHeap", sz, 2, B_HEAP_OR_PAGE, pow2, 4,
                              k == 3 ? 6 : 7));
   }
-  // --- bump heaps
-  const size_t M = 1u << 20;
-  bfs.push_back(bump_case(
-      "BumpHeap<SystemHeap> (fresh object)", "BumpHeap",
-      {1, 8, 9, 4096, M, PAGE - 16, PAGE - 8},
-      {1, 8, 9, 4096, M, PAGE - 16, PAGE - 8, PAGE, PAGE + 1}, 1, B_PAGE,
-      [] { return std::unique_ptr<BumpApi>(new BumpDirectApi()); }, 4, 6, 2));
+  // --- per-thread-storage offsets on a private backend
+  bfs.push_back(perbackend_case(5, 9));
+  // --- bump heaps.  allocate(size) is legal up to 2 MiB - 8 (it aborts
+  //     above); allocate(size, allocated) "may fail" and is documented and
+  //     unit-tested (unit-mem) with requests above a page.
   bfs.push_back(bump_case(
       "VariableSizeHeap (fresh object), 2 threads", "BumpHeap",
       {9, M, PAGE - 8}, {9, M, PAGE - 8, PAGE + 1}, 2, B_PAGE,
@@ -1634,14 +1656,10 @@ int main(int argc, char** argv) {
       {1, 8, 9, 4096, M, PAGE - 16, PAGE - 8, PAGE - 7, 3 * M}, {}, 1,
       B_HEAP_OR_PAGE,
       [] { return std::unique_ptr<BumpApi>(new IterAllocApi()); }, 4, 6, 2));
-  // --- page pool
-  bfs.push_back(pagepool_case(2, 4, 6));
-  // --- per-thread storage
-  bfs.push_back(perbackend_case(5, 9));
-  bfs.push_back(pts_objects_case(4, 7));
-  // --- large arrays: one page minus a bit / one page plus one element / small
-  const size_t FIT = PAGE / sizeof(Elem); // 87381 elements = 2 MiB - 8
-  bfs.push_back(largearray_case(1000, FIT + 1, 4, 8));
-  bfs.push_back(largearray_case(FIT, 3 * FIT, 4, 8));
+  bfs.push_back(bump_case(
+      "BumpHeap<SystemHeap> (fresh object)", "BumpHeap",
+      {1, 8, 9, 4096, M, PAGE - 16, PAGE - 8},
+      {1, 8, 9, 4096, M, PAGE - 16, PAGE - 8, PAGE, PAGE + 1}, 1, B_PAGE,
+      [] { return std::unique_ptr<BumpApi>(new BumpDirectApi()); }, 4, 6, 2));
   return sx::sx_main(argc, argv, "C09", bfs, {});
 }
